@@ -1,6 +1,7 @@
 package node
 
 import (
+	"bytes"
 	"context"
 	"database/sql"
 	"fmt"
@@ -656,7 +657,12 @@ func (d *Pegnetd) SnapshotPayouts(tx *sql.Tx, fLog *log.Entry, rates map[fat2.PT
 	}
 
 	sort.Slice(list, func(i, j int) bool {
-		return list[i].PUSD < list[j].PUSD
+		if list[i].PUSD != list[j].PUSD {
+			return list[i].PUSD < list[j].PUSD
+		}
+		// Equal stakes must still be ordered the same way on every node: the
+		// list comes out of a map, and the index decides the payout txid.
+		return bytes.Compare(list[i].Address[:], list[j].Address[:]) < 0
 	})
 
 	// Calculate payouts
